@@ -2,6 +2,7 @@ import FrappyDrive.DTypes
 import FrappyModel.Datatypes.Datainfo
 import FrappyModel.Datatypes.Compat
 import FrappyModel.Datatypes.Variants
+import FrappyModel.Datatypes.CompatUsers
 import FrappyModel.Datatypes.CopyHeap
 import FrappyModel.Datatypes.Import
 import FrappyModel.Spec.C03
@@ -20,6 +21,10 @@ Line-protocol glue for C03.  Annotated trees (`DInfo`) are the trees of `DTypes.
       → {"model":"pass"|"bad","nested":b,"wf":b,"judge":[..]}
       (trees of a pair may carry "cls":"text" on a string node, "cls":"limits" | "status" on a tuple node: `CType`)
   {"k":"probe","di":T,"mode":"wire"|"py","cand":V}  → {"model":O}       (model outcome of import_value / validate)
+  {"k":"proxy","params":[{"name":s,"export":b,"readonly":b,"dt":T,"remote":null|{"dt":T,"readonly":b}},..]}
+      → {"model":[[name,[warning,..]],..]}                 (ProxyModule._check_descriptive_data, parameters)
+  {"k":"writable","value":T,"target":T} → {"model":"ok"|"ConfigError"|"ProgrammingError"}   (Writable.__init__; the
+      datatypes are those declared: the check sees their copies, `copyC`)
 -/
 namespace Frappy.Drive.C03
 open Lean Frappy.Drive Frappy Frappy.Datatypes Frappy.Spec.C03
@@ -236,6 +241,21 @@ def handle (j : Json) : R Json := do
     else
       let cand ← pvalOfJson (← fld j "cand")
       return Json.mkObj [("model", outcomeToJson (outcomeOfRes (validate t.erase cand none)))]
+  | "proxy" =>
+    let out ← (← fldArr j "params").mapM (fun p => do
+      let name ← fldStr p "name"
+      let dt ← ctypeOfJson (← fld p "dt")
+      let remote : Option (RemoteParam Float) ← match p.getObjVal? "remote" with
+        | .ok .null => pure none
+        | .ok r => do pure (some { datatype := ← ctypeOfJson (← fld r "dt"), readonly := ← fldBool r "readonly" })
+        | .error _ => pure none
+      let ws := proxyParam name (← fldBool p "export") (← fldBool p "readonly") dt remote
+      return jarr [.str name, jstrs (ws.map ProxyWarning.name)])
+    return Json.mkObj [("model", jarr out)]
+  | "writable" =>
+    let v ← ctypeOfJson (← fld j "value")
+    let t ← ctypeOfJson (← fld j "target")
+    return Json.mkObj [("model", .str (writableCheck (copyC v) (copyC t)).name)]
   | _ => throw s!"C03: unknown verb {k}"
 
 end Frappy.Drive.C03
